@@ -799,7 +799,7 @@ def contains(I, container, x):
         if isinstance(container, (tuple, list, set, frozenset, range)):
             return Or(*[x == c for c in container if isinstance(c, (int, SInt, SBool))]) if len(container) else False
         if isinstance(container, dict):
-            return Or(*[x == c for c in container.keys() if isinstance(c, int)]) if container else False
+            return Or(*[x == c for c in container.keys() if isinstance(c, (int, SInt, SBool))]) if container else False
         if isinstance(container, (bytes, bytearray)):
             return Or(*[x == c for c in set(container)]) if container else False
         if isinstance(container, SBuf):
@@ -831,6 +831,9 @@ def contains(I, container, x):
             raise Unsupported('substring test with symbolic buffers')
     if isinstance(container, (tuple, list)) and any(deep_sym(c) for c in container):
         return Or(*[compare(I, ast.Eq, x, c) for c in container])
+    if isinstance(container, dict) and isinstance(x, int) and not isinstance(x, bool) \
+            and any(isinstance(c, (SInt, SBool)) for c in container.keys()):
+        return Or(*[x == c for c in container.keys() if isinstance(c, (int, SInt, SBool))])
     return x in container
 
 
@@ -866,9 +869,22 @@ def dict_lookup(I, d, key):
     raise KeyError(key)
 
 
+def _canon_key(I, d, idx):
+    """The key object of d that idx equals on this path (deciding the equality, forking if open),
+    or the hashable form of idx itself: keeps dictionaries with symbolic integer keys by-value."""
+    if isinstance(idx, (SInt, SBool)) or (isinstance(idx, int) and any(isinstance(k, (SInt, SBool)) for k in d.keys())):
+        for k in list(d.keys()):
+            if isinstance(k, (int, SInt, SBool)) and not (isinstance(k, int) and isinstance(idx, int)):
+                if I.truth(idx == k):
+                    return k
+            elif isinstance(k, int) and isinstance(idx, int) and k == idx:
+                return k
+    return I.hashable(idx)
+
+
 def setitem(I, obj, idx, v):
     if isinstance(obj, dict):
-        obj[I.hashable(idx)] = v
+        obj[_canon_key(I, obj, idx)] = v
         return
     if isinstance(obj, (bytearray, memoryview)) and deep_sym(v):
         raise Unsupported('symbolic value stored into native buffer')
@@ -879,7 +895,7 @@ def setitem(I, obj, idx, v):
 
 def delitem(I, obj, idx):
     if isinstance(obj, dict):
-        del obj[I.hashable(idx)]
+        del obj[_canon_key(I, obj, idx)]
         return
     if isinstance(idx, slice):
         idx = _conc_slice(idx)
